@@ -1,0 +1,12 @@
+//go:build !verif
+
+// Package verifhook provides named instrumentation points for the external
+// verification harness.  Without the "verif" build tag every function is an
+// empty, inlinable no-op.
+package verifhook
+
+// Point marks a named instrumentation point.
+func Point(name string, kv ...interface{}) {}
+
+// Enabled reports whether the hooks are compiled in.
+const Enabled = false
